@@ -76,3 +76,23 @@ From TrV Require Import Proofs.FullStatements.
 Theorem C04_full : C04_full_statement.
 Proof. exact C04_original. Qed.
 Print Assumptions C04_full.
+
+(* tie to the source: Calculator::reset's running minimum / maximum of the access and egress walks (two independent tests,
+   initial values) and the seeded labels, as resets.cpp writes them now *)
+Theorem C04_reset_access_minmax_is_code : forall rows,
+  G.gen_reset_acc_tests_independent = true /\
+  fold_left (minmax_step G.gen_reset_acc_min G.gen_reset_acc_max G.gen_reset_acc_tests_independent) rows
+            (G.gen_reset_min_init, G.gen_reset_max_init) = (min_time rows, max_time rows).
+Proof. exact reset_access_minmax_tie. Qed.
+Print Assumptions C04_reset_access_minmax_is_code.
+Theorem C04_reset_egress_minmax_is_code : forall rows,
+  G.gen_reset_egr_tests_independent = true /\
+  fold_left (minmax_step G.gen_reset_egr_min G.gen_reset_egr_max G.gen_reset_egr_tests_independent) rows
+            (G.gen_reset_min_init, G.gen_reset_max_init) = (min_time rows, max_time rows).
+Proof. exact reset_egress_minmax_tie. Qed.
+Print Assumptions C04_reset_egress_minmax_is_code.
+Theorem C04_reset_seeds_are_code : forall dep arr rows,
+  seed_tau dep rows = fold_left (fun m r => upd m (fp_node r) (G.gen_reset_acc_seed dep arr (fp_time r))) rows (fun _ => MAX_INT) /\
+  seed_taur arr rows = fold_left (fun m r => upd m (fp_node r) (G.gen_reset_egr_seed dep arr (fp_time r))) rows (fun _ => -1).
+Proof. exact reset_seeds_tie. Qed.
+Print Assumptions C04_reset_seeds_are_code.
